@@ -6,7 +6,7 @@ import "testing"
 // encoders plus hostile constants) under several fragmentation plans. It is the quick-tier form of the
 // native fuzz targets (the same oracle functions are called by the Fuzz* targets).
 func TestSeeds(t *testing.T) {
-	frags := []uint16{0, 0x0001, 0x0111, 0x1001, 0x0321, 0x9a62}
+	frags := []uint16{0, 0x0001, 0x1321, 0x9a62}
 	t.Run("socks5-addr", func(t *testing.T) {
 		for _, s := range hostileAddrs() {
 			for _, fr := range frags {
@@ -18,7 +18,7 @@ func TestSeeds(t *testing.T) {
 	t.Run("socks5-server", func(t *testing.T) {
 		sels, seeds := socks5ServerSeeds()
 		for i := range seeds {
-			for j, fr := range frags[:4] {
+			for j, fr := range frags[:3] {
 				oracleSocks5Server(t, sels[i], fr, seeds[i])
 				oracleSocks5Server(t, sels[i]|8|uint8((i+j)%14)<<4, fr, seeds[i])
 			}
@@ -35,7 +35,7 @@ func TestSeeds(t *testing.T) {
 	t.Run("http-server", func(t *testing.T) {
 		sels, clients, origins := httpServerSeeds()
 		for i := range clients {
-			for _, fr := range frags[:4] {
+			for _, fr := range frags[:3] {
 				oracleHTTPServer(t, sels[i], fr, clients[i], origins[i])
 			}
 			oracleHTTPServer(t, sels[i]|4, 0, clients[i], origins[i])
